@@ -178,7 +178,7 @@ MODULE_CONSTS = {"ApiTotalTrace": "  Full = TRUE\n", "LockTrace": "  DB <- Trace
                  "CommitTrace": "  MaxTx = 3\n  MaxRecs = 200\n  Cap = 100000\n  Sw = {\"SyncFaultOnMark\"}\n"}
 
 
-def tlc_trace(trace_path, dev=(), module="NutsTrace", diag_line=0, timeout=900, heap="3g", sdir=None, extra_consts=""):
+def tlc_trace(trace_path, dev=(), module="NutsTrace", diag_line=0, timeout=3600, heap="3g", sdir=None, extra_consts=""):
     """Validate one ndjson trace.  Returns dict(accepted, reached, total, notes, out)."""
     d = sdir or spec_dir()
     cfgp = os.path.join(d, "tr-%d.cfg" % (int(time.time() * 1e6) % 10**12))
